@@ -26,7 +26,7 @@ pub const MACHINES: [&str; 1] = ["Generic"];
 
 pub const TYPES: [&str; 10] = ["u32x4", "u64x2", "u128x1", "u32x4x2", "u64x2x2", "u64x4", "u128x2", "u32x4x4", "u64x2x4", "u128x4"];
 
-pub use super::vecops_core::{exec, GROUPS};
+pub use super::vecops_core::{exec, exec_bytes, BYTE_TYPES, GROUPS};
 use super::vecops_core::{ld256, ld512, st256, st512};
 
 /// group 12: conversions between the 128-bit-word view and the other views of the same width. They exist on the x86
@@ -96,6 +96,20 @@ fn exec_on(mi: usize, ty: usize, group: usize, k: u32, imm: u32, regs: &mut Regs
         }
         return;
     }
+    if group >= 13 {
+        // byte-I/O programs (operands through read_le/read_be, results through write_le/write_be); sub-group from k
+        let g = (group - 13) as usize;
+        unsafe {
+            match mi {
+                0 => exec_bytes(SSE2::instance(), ty, g, k, imm, regs, dst, ia, ib),
+                1 => exec_bytes(SSSE3::instance(), ty, g, k, imm, regs, dst, ia, ib),
+                2 => exec_bytes(SSE41::instance(), ty, g, k, imm, regs, dst, ia, ib),
+                3 => exec_bytes(AVX::instance(), ty, g, k, imm, regs, dst, ia, ib),
+                _ => exec_bytes(AVX2::instance(), ty, g, k, imm, regs, dst, ia, ib),
+            }
+        }
+        return;
+    }
     unsafe {
         match mi {
             0 => exec(SSE2::instance(), ty, group, k, imm, regs, dst, ia, ib),
@@ -118,6 +132,10 @@ fn exec_on(_mi: usize, ty: usize, group: usize, k: u32, imm: u32, regs: &mut Reg
         };
         let ra = regs[ia];
         regs[dst][..width].copy_from_slice(&ra[..width]);
+        return;
+    }
+    if group >= 13 {
+        unsafe { exec_bytes(GenericMachine::instance(), ty, group - 13, k, imm, regs, dst, ia, ib) }
         return;
     }
     unsafe { exec(GenericMachine::instance(), ty, group, k, imm, regs, dst, ia, ib) }
@@ -181,7 +199,7 @@ impl Scenario for S8 {
             "vop",
             &[
                 ("ty", r.below(10) as u128),
-                ("group", r.below(13) as u128),
+                ("group", r.below(25) as u128),
                 ("k", r.below(8) as u128),
                 ("imm", r.below(256) as u128),
                 ("dst", r.below(4) as u128),
@@ -196,33 +214,41 @@ impl Scenario for S8 {
         }
         w.steps += 1;
         let ty = (op.get("ty") % 10) as usize;
-        let group = (op.get("group") % 13) as usize;
+        let group = (op.get("group") % 25) as usize;
         let (k, imm) = (op.get("k") as u32, op.get("imm") as u32);
         let (dst, ia, ib) = ((op.get("dst") % 4) as usize, (op.get("a") % 4) as usize, (op.get("b") % 4) as usize);
-        let gname = if group == 12 { "convert" } else { GROUPS[group] };
-        stats.hit(&format!("op.{}.{}", TYPES[ty], gname));
+        let gname: String = if group == 12 {
+            "convert".to_string()
+        } else if group >= 13 {
+            format!("byteio_{}", GROUPS[group - 13])
+        } else {
+            GROUPS[group].to_string()
+        };
+        let gname = gname.as_str();
+        let tname = if group >= 13 { BYTE_TYPES[ty % 5] } else { TYPES[ty] };
+        stats.hit(&format!("op.{}.{}", tname, gname));
         let mut outcomes: Vec<Result<(), String>> = Vec::new();
         for mi in 0..w.regs.len() {
             let regs = &mut w.regs[mi];
             outcomes.push(guarded(|| exec_on(mi, ty, group, k, imm, regs, dst, ia, ib)));
             stats.hit(&format!("host.{}.steps", MACHINES[mi]));
         }
-        stats.state(&[17, ty as u64, group as u64, k as u64 % 8]);
+        stats.state(&[17, ty as u64, group as u64, k as u64 % 8, if group >= 13 { (imm as u64 >> 5) & 3 } else { 0 }]);
         let panicked: Vec<usize> = (0..outcomes.len()).filter(|i| outcomes[*i].is_err()).collect();
         if !panicked.is_empty() && panicked.len() < outcomes.len() {
             let names: Vec<&str> = panicked.iter().map(|i| MACHINES[*i]).collect();
             return Step::Fail(Violation::new(
                 &["C03"],
                 "V2",
-                format!("vector op panics on some backends only:{}:{}:{}", TYPES[ty], gname, names.join("+")),
-                format!("{} {} k={} imm={}: {}", TYPES[ty], gname, k, imm, outcomes[panicked[0]].clone().unwrap_err()),
+                format!("vector op panics on some backends only:{}:{}:{}", tname, gname, names.join("+")),
+                format!("{} {} k={} imm={}: {}", tname, gname, k, imm, outcomes[panicked[0]].clone().unwrap_err()),
             ));
         }
         if panicked.len() == outcomes.len() {
             // every machine of this build refuses: the transcript records it (another build may not)
             w.log = (w.log.rotate_left(7) ^ op.hash()).wrapping_mul(0x9e37_79b9_7f4a_7c15) ^ 0xdead;
             stats.hit("probe.op_panics_on_every_machine_of_this_build");
-            stats.hit(&format!("refused_everywhere.{}.{}", TYPES[ty], gname));
+            stats.hit(&format!("refused_everywhere.{}.{}", tname, gname));
             return Step::Done;
         }
         let r0 = w.regs[0];
@@ -239,8 +265,8 @@ impl Scenario for S8 {
                 return Step::Fail(Violation::new(
                     &["C03"],
                     "V1",
-                    format!("vector op differs between backends:{}:{}:{}", TYPES[ty], gname, odd.join("+")),
-                    format!("{} {} k={} imm={} on registers {} {}: machine {} differs from {}", TYPES[ty], gname, k, imm, ia, ib, MACHINES[mi], MACHINES[0]),
+                    format!("vector op differs between backends:{}:{}:{}", tname, gname, odd.join("+")),
+                    format!("{} {} k={} imm={} on registers {} {}: machine {} differs from {}", tname, gname, k, imm, ia, ib, MACHINES[mi], MACHINES[0]),
                 ));
             }
         }
